@@ -81,6 +81,7 @@ class Executor(object):
         self.event_mode = False
         self.events = []
         self.assume_feasible = False
+        self.debug_merge = None
 
     # ---------------------------------------------------------------- memory
     def new_obj(self, st, value, tag=''):
@@ -298,20 +299,24 @@ class Executor(object):
             pc = p1[:k] + (b_or(c1, c2),)
         return State(new, pc), c1
 
-    def merge_envs(self, c, e1, e2):
+    def merge_envs(self, c, e1, e2, keys):
+        """values defined only inside one branch are dead after the join (SSA dominance): keep the keys that
+        existed at the fork plus the join block's phis"""
         out = {}
-        for k, v1 in e1.items():
+        for k in keys:
+            v1 = e1.get(k, self)
             v2 = e2.get(k, self)
+            if v1 is self:
+                if v2 is not self:
+                    out[k] = v2
+                continue
             if v2 is self or v1 is v2:
                 out[k] = v1
-            else:
-                try:
-                    out[k] = self.merge_any(c, v1, v2)
-                except Unsupported as ex:
-                    out[k] = Poison(str(ex))
-        for k, v2 in e2.items():
-            if k not in out:
-                out[k] = v2
+                continue
+            try:
+                out[k] = self.merge_any(c, v1, v2)
+            except Unsupported as ex:
+                out[k] = Poison(str(ex))
         return out
 
     def merge_ret(self, a, b):
@@ -357,7 +362,7 @@ class Executor(object):
         skip_phi = False
         while True:
             if b == stop:
-                return (st, pred, fr), ret
+                return (st, pred, fr, skip_phi), ret
             blk = fn.blocks[b]
             if not skip_phi and pred is not None:
                 self.eval_phis(fr, b, pred)
@@ -408,6 +413,7 @@ class Executor(object):
                     J = fn.ipdom[b]
                     if J is None:
                         J = stop
+                    base_keys = set(fr.env)
                     f1, f2 = fr.fork(), fr.fork()
                     s1, s2 = st.copy(), st.copy()
                     s1.pc = st.pc + (c,)
@@ -422,7 +428,7 @@ class Executor(object):
                         pass
                     if o1 is None or o2 is None:
                         o = o1 or o2
-                        st, pred, frx = o
+                        st, pred, frx, skip_phi = o
                         fr.env = frx.env
                         fr.defers = frx.defers
                         b = J
@@ -430,10 +436,16 @@ class Executor(object):
                         break
                     # both reached J: evaluate phis per edge, then merge
                     if J is not None:
-                        self.eval_phis(o1[2], J, o1[1])
-                        self.eval_phis(o2[2], J, o2[1])
+                        if not o1[3]:
+                            self.eval_phis(o1[2], J, o1[1])
+                        if not o2[3]:
+                            self.eval_phis(o2[2], J, o2[1])
                     st, cm = self.merge_states(o1[0], o2[0])
-                    fr.env = self.merge_envs(cm, o1[2].env, o2[2].env)
+                    if J is not None:
+                        jb = fn.blocks[J]['instrs']
+                        for k in range(fn.nphi[J]):
+                            base_keys.add('%' + jb[k]['name'])
+                    fr.env = self.merge_envs(cm, o1[2].env, o2[2].env, base_keys)
                     fr.defers = o1[2].defers
                     pred = o1[1]
                     b = J
@@ -754,7 +766,7 @@ class Executor(object):
 
     def op_IndexAddr(self, fr, ins, st):
         x = self.val(fr, ins['x'])
-        idx = self.val(fr, ins['index'])
+        idx = self.index_val(fr, ins)
         pos = ins.get('pos', '')
         if isinstance(x, SymChoice):
             alts = []
@@ -762,6 +774,16 @@ class Executor(object):
                 alts.append((g, self.index_addr1(st, a, idx, pos, ins)))
             return SymChoice(alts)
         return self.index_addr1(st, x, idx, pos, ins)
+
+    def index_val(self, fr, ins):
+        idx = force(self.val(fr, ins['index']))
+        if not isinstance(idx, int):
+            w, sg = int_info(self.prog, ins['itype'])
+            if w != 64 or not sg:
+                if w == 64:
+                    raise Unsupported('uint64 symbolic index')
+                idx = int_convert(idx, w, sg, 64, True)
+        return idx
 
     def index_addr1(self, st, x, idx, pos, ins):
         xt = self.prog.under(ins['xtype'])
@@ -801,7 +823,7 @@ class Executor(object):
 
     def op_Index(self, fr, ins, st):
         x = self.val(fr, ins['x'])
-        idx = force(self.val(fr, ins['index']))
+        idx = self.index_val(fr, ins)
         pos = ins.get('pos', '')
         if isinstance(x, str):
             data = x.encode('utf-8')
